@@ -707,13 +707,21 @@ def Op.isWrite : Op → Bool
   | .write _ => true
   | _ => false
 
-/-- the arguments of an operation fit the table it is applied to (field numbers exist; replacement columns have one value per row) -/
-def OpOK (nF : Nat) (op : Op) (ls : List Lazy) : Prop :=
+/-- the arguments of an operation fit the table it is applied to: replacement columns have one value per row. (This is the
+DOMAIN of the property, not a totalisation: on an ill-sized column the real lazy table accepts the assignment and fails at the
+next materialisation while the real eager `replace` raises at once — a caller error the two modes do not agree on;
+`illsized_setattr_diverges` shows the model's two sides diverge there too. A field number outside the entry type is NOT
+guarded: both machines fail, as both real tables raise AttributeError.) -/
+def OpOK (op : Op) (ls : List Lazy) : Prop :=
   match op with
-  | .get _ f => f < nF
   | .replace a _ kw => ∀ l, ls[a]? = some l → ∀ p ∈ kw, p.2.length = l.buf.length
   | .setattr a _ c => ∀ l, ls[a]? = some l → c.length = l.buf.length
   | _ => True
+
+/-- hide the PAYLOAD of a written-bytes observation; failure stays failure -/
+def maskObs : Obs → Obs
+  | .bytes _ => .bytes []
+  | o => o
 
 def CanonAll (nF : Nat) (join : List Bytes → Bytes) (ls : List Lazy) : Prop := ∀ l ∈ ls, Canon nF join l.buf
 
@@ -730,14 +738,12 @@ theorem canon_of_getElem? (nF : Nat) (join : List Bytes → Bytes) (ls : List La
 theorem canon_gather (nF : Nat) (join : List Bytes → Bytes) (buf : List FRow) (h : Canon nF join buf) (ixs : List Nat) :
     Canon nF join (gather buf ixs) := fun r hr => h r (mem_gather _ _ _ hr)
 
-/-- **C05.step_preserves** — one step of any operation on related register files (with the repaired concatenate
-and attribute assignment) yields equal observations — or failure in both — and related register files again.
-Written bytes are claimed equal when the files are canonical (`canon = true`); values always. -/
-theorem step_preserves (k : Cfg) (hn : 0 < k.nF) (hfc : k.fixedConcat = true) (hfs : k.fixedSetattr = true)
+/-- the core of `step_preserves` -/
+theorem step_core (k : Cfg) (hn : 0 < k.nF) (hfc : k.fixedConcat = true) (hfs : k.fixedSetattr = true)
     (canon : Bool) (op : Op) (ls : List Lazy) (es : List Eager)
-    (h : RAll k.nF ls es) (hcan : canon = true → CanonAll k.nF k.join ls) (hok : OpOK k.nF op ls)
-    (hw : canon = true → k.modWrite = true ∧ k.eagerWrite = true) :
-    ((stepLazy k op ls).1 = (stepEager k op es).1 ∨ (op.isWrite = true ∧ canon = false)) ∧
+    (h : RAll k.nF ls es) (hcan : canon = true → CanonAll k.nF k.join ls) (hok : OpOK op ls) :
+    ((stepLazy k op ls).1 = (stepEager k op es).1 ∨
+      (op.isWrite = true ∧ (canon = false ∨ k.modWrite = false ∨ k.eagerWrite = false))) ∧
     RAll k.nF (stepLazy k op ls).2 (stepEager k op es).2 ∧
     (canon = true → CanonAll k.nF k.join (stepLazy k op ls).2) := by
   cases op with
@@ -754,11 +760,15 @@ theorem step_preserves (k : Cfg) (hn : 0 < k.nF) (hfc : k.fixedConcat = true) (h
     | some l =>
       obtain ⟨e, he, hr⟩ := RAll_some _ _ _ h a l hl
       simp only [stepLazy, stepEager, hl, he, hfs, if_true]
-      refine ⟨Or.inl (by simp only [get_fst, R_get_col k.nF l e hr f hok]), ?_, ?_⟩
-      · have := RAll_set _ _ _ h a (l.get f).2 e (R_get k.nF l e hr f)
-        rwa [set_self_of_getElem? _ _ _ he] at this
-      · intro hc
-        exact CanonAll_set _ _ _ (hcan hc) a _ (by rw [(get_snd_props l hr.1 f).2.2.1]; exact canon_of_getElem? _ _ _ (hcan hc) a l hl)
+      by_cases hf : f < k.nF
+      · simp only [hf, if_true]
+        refine ⟨Or.inl (by simp only [get_fst, R_get_col k.nF l e hr f hf]), ?_, ?_⟩
+        · have := RAll_set _ _ _ h a (l.get f).2 e (R_get k.nF l e hr f)
+          rwa [set_self_of_getElem? _ _ _ he] at this
+        · intro hc
+          exact CanonAll_set _ _ _ (hcan hc) a _ (by rw [(get_snd_props l hr.1 f).2.2.1]; exact canon_of_getElem? _ _ _ (hcan hc) a l hl)
+      · simp only [hf, if_false]
+        exact ⟨Or.inl (by first | rfl | trivial), h, hcan⟩
   | index a d ix =>
     cases hl : ls[a]? with
     | none => simp only [stepLazy, stepEager, hl, RAll_none _ _ _ h a hl]; exact ⟨Or.inl (by first | rfl | trivial), h, hcan⟩
@@ -885,22 +895,48 @@ theorem step_preserves (k : Cfg) (hn : 0 < k.nF) (hfc : k.fixedConcat = true) (h
     | some l =>
       obtain ⟨e, he, hr⟩ := RAll_some _ _ _ h a l hl
       simp only [stepLazy, stepEager, hl, he, hfs, if_true]
-      cases hcb : canon with
-      | false =>
-        refine ⟨Or.inr ⟨rfl, rfl⟩, ?_, fun hf => absurd hf (by decide)⟩
-        split <;> split <;> exact h
-      | true =>
-        obtain ⟨hm, he'⟩ := hw hcb
+      by_cases hall : canon = true ∧ k.modWrite = true ∧ k.eagerWrite = true
+      · obtain ⟨hcb, hm, he'⟩ := hall
         simp only [hm, he', Bool.not_true, Bool.false_and, Bool.false_eq_true, if_false]
         refine ⟨Or.inl ?_, h, fun _ => hcan hcb⟩
         rw [write_equal k.nF hn k.join l e hr (canon_of_getElem? _ _ _ (hcan hcb) a l hl)]
+      · refine ⟨Or.inr ⟨rfl, ?_⟩, ?_, ?_⟩
+        · cases canon <;> cases hm : k.modWrite <;> cases he' : k.eagerWrite <;> simp_all
+        · split <;> split <;> exact h
+        · intro hc; split <;> exact hcan hc
+
+/-- **C05.step_preserves** — one step of any operation on related register files (with the repaired concatenate
+and attribute assignment) yields equal observations — or failure in both — and related register files again.
+Written BYTES are claimed equal when the files are canonical (`canon = true`) and the buffer type can write both kinds of table;
+for every file, a write step still agrees on success-vs-failure (only the payload is masked by `maskObs`); values always. -/
+theorem step_preserves (k : Cfg) (hn : 0 < k.nF) (hfc : k.fixedConcat = true) (hfs : k.fixedSetattr = true)
+    (canon : Bool) (op : Op) (ls : List Lazy) (es : List Eager)
+    (h : RAll k.nF ls es) (hcan : canon = true → CanonAll k.nF k.join ls) (hok : OpOK op ls) :
+    ((stepLazy k op ls).1 = (stepEager k op es).1 ∨
+      (op.isWrite = true ∧ (canon = false ∨ k.modWrite = false ∨ k.eagerWrite = false))) ∧
+    RAll k.nF (stepLazy k op ls).2 (stepEager k op es).2 ∧
+    (canon = true → CanonAll k.nF k.join (stepLazy k op ls).2) ∧
+    (k.modWrite = true → k.eagerWrite = true → maskObs (stepLazy k op ls).1 = maskObs (stepEager k op es).1) := by
+  obtain ⟨s1, s2, s3⟩ := step_core k hn hfc hfs canon op ls es h hcan hok
+  refine ⟨s1, s2, s3, ?_⟩
+  intro hm he'
+  rcases s1 with s1 | ⟨hw, _⟩
+  · rw [s1]
+  · cases op with
+    | write a =>
+      cases hl : ls[a]? with
+      | none => simp only [stepLazy, stepEager, hl, RAll_none _ _ _ h a hl]
+      | some l =>
+        obtain ⟨e, he, _⟩ := RAll_some _ _ _ h a l hl
+        simp only [stepLazy, stepEager, hl, he, hm, he', Bool.not_true, Bool.false_and, Bool.false_eq_true, if_false, maskObs]
+    | _ => simp [Op.isWrite] at hw
 
 /-! ### programs -/
 
 /-- every operation of the sequence is applied with well-sized arguments (checked along the run) -/
 def RunOK (k : Cfg) : List Op → List Lazy → Prop
   | [], _ => True
-  | op :: ops, ls => OpOK k.nF op ls ∧ RunOK k ops (stepLazy k op ls).2
+  | op :: ops, ls => OpOK op ls ∧ RunOK k ops (stepLazy k op ls).2
 
 /-- hide the observations of `write` steps (used when the file text is not canonical) -/
 def maskWrites : List Op → List Obs → List Obs
@@ -930,8 +966,9 @@ theorem RAll_ofFile (nF : Nat) (bufs : List (List FRow)) :
     subst hl; subst he
     exact R_ofFile nF b
 
-/-- **C05.programs** — for canonical files: every finite sequence of public operations gives the same observation
-trace (lengths, columns, rows, written BYTES, or failure) on the lazy and on the eager register file -/
+/-- **C05.programs** — for canonical files and a buffer type that writes both kinds of table: every finite sequence of public
+operations gives the same observation trace (lengths, columns, rows, written BYTES, or failure) on the lazy and on the eager
+register file -/
 theorem programs (k : Cfg) (hn : 0 < k.nF) (hfc : k.fixedConcat = true) (hfs : k.fixedSetattr = true)
     (hmw : k.modWrite = true) (hew : k.eagerWrite = true) (ops : List Op) :
     ∀ (ls : List Lazy) (es : List Eager), RAll k.nF ls es → CanonAll k.nF k.join ls → RunOK k ops ls →
@@ -940,43 +977,110 @@ theorem programs (k : Cfg) (hn : 0 < k.nF) (hfc : k.fixedConcat = true) (hfs : k
   | nil => intro ls es _ _ _; rfl
   | cons op ops ih =>
     intro ls es h hcan hok
-    obtain ⟨s1, s2, s3⟩ := step_preserves k hn hfc hfs true op ls es h (fun _ => hcan) hok.1 (fun _ => ⟨hmw, hew⟩)
+    obtain ⟨s1, s2, s3, _⟩ := step_preserves k hn hfc hfs true op ls es h (fun _ => hcan) hok.1
     simp only [runLazy, runEager]
     rcases s1 with s1 | s1
     · rw [s1, ih _ _ s2 (s3 rfl) hok.2]
-    · exact absurd s1.2 (by decide)
+    · rcases s1.2 with h1 | h1 | h1
+      · exact absurd h1 (by decide)
+      · rw [hmw] at h1; exact absurd h1 (by decide)
+      · rw [hew] at h1; exact absurd h1 (by decide)
 
-/-- **C05.programs_values** — for ALL files (canonical text or not): the traces agree at every step that is not a write
+/-- hide only the PAYLOAD of the `write` observations: success-vs-failure of a write stays visible -/
+def maskPayload (os : List Obs) : List Obs := os.map maskObs
+
+/-- **C05.programs_values** — for ALL files (canonical text or not) and a buffer type that writes both kinds of table: the
+traces agree at every step, a write step included as far as its SUCCESS OR FAILURE goes — only the written payload is masked
 (for non-canonical text C04 makes the lazy write keep the original spelling while the eager write re-formats) -/
-theorem programs_values (k : Cfg) (hn : 0 < k.nF) (hfc : k.fixedConcat = true) (hfs : k.fixedSetattr = true) (ops : List Op) :
+theorem programs_values (k : Cfg) (hn : 0 < k.nF) (hfc : k.fixedConcat = true) (hfs : k.fixedSetattr = true)
+    (hmw : k.modWrite = true) (hew : k.eagerWrite = true) (ops : List Op) :
+    ∀ (ls : List Lazy) (es : List Eager), RAll k.nF ls es → RunOK k ops ls →
+      maskPayload (runLazy k ops ls) = maskPayload (runEager k ops es) := by
+  induction ops with
+  | nil => intro ls es _ _; rfl
+  | cons op ops ih =>
+    intro ls es h hok
+    obtain ⟨_, s2, _, s4⟩ := step_preserves k hn hfc hfs false op ls es h (fun hf => absurd hf (by decide)) hok.1
+    have := ih _ _ s2 hok.2
+    unfold maskPayload at this ⊢
+    simp only [runLazy, runEager, List.map_cons]
+    rw [this, s4 hmw hew]
+
+/-- **C05.programs_nonwrite** — for EVERY configuration (BAM included, whose buffer type writes neither modified nor eager
+tables): the traces agree at every step that is not a write -/
+theorem programs_nonwrite (k : Cfg) (hn : 0 < k.nF) (hfc : k.fixedConcat = true) (hfs : k.fixedSetattr = true) (ops : List Op) :
     ∀ (ls : List Lazy) (es : List Eager), RAll k.nF ls es → RunOK k ops ls →
       maskWrites ops (runLazy k ops ls) = maskWrites ops (runEager k ops es) := by
   induction ops with
   | nil => intro ls es _ _; rfl
   | cons op ops ih =>
     intro ls es h hok
-    obtain ⟨s1, s2, _⟩ := step_preserves k hn hfc hfs false op ls es h (fun hf => absurd hf (by decide)) hok.1
-      (fun hf => absurd hf (by decide))
+    obtain ⟨s1, s2, _, _⟩ := step_preserves k hn hfc hfs false op ls es h (fun hf => absurd hf (by decide)) hok.1
     simp only [runLazy, runEager, maskWrites]
     rw [ih _ _ s2 hok.2]
     rcases s1 with s1 | s1
     · rw [s1]
     · simp [s1.1]
 
+/-- **C05.bam_untouched_write_diverges** — where the two modes really differ: with a buffer type that writes neither modified
+nor eager tables (BAM), an UNTOUCHED lazy table is written (its records' original bytes) while the eager table cannot be written -/
+theorem bam_untouched_write_diverges (k : Cfg) (hmw : k.modWrite = false) (hew : k.eagerWrite = false)
+    (ls : List Lazy) (es : List Eager) (a : Nat) (l : Lazy) (e : Eager) (hl : ls[a]? = some l) (he : es[a]? = some e)
+    (hs : l.set = []) :
+    (stepLazy k (.write a) ls).1 = .bytes (l.buf.map (·.raw)).flatten ∧ (stepEager k (.write a) es).1 = .err := by
+  simp [stepLazy, stepEager, hl, he, hmw, hew, hs, Lazy.write]
+
+/-- **C05.bam_modified_write_both_err** — with such a buffer type a lazy table with replaced columns fails to write, like the eager one -/
+theorem bam_modified_write_both_err (k : Cfg) (hmw : k.modWrite = false) (hew : k.eagerWrite = false)
+    (ls : List Lazy) (es : List Eager) (a : Nat) (l : Lazy) (e : Eager) (hl : ls[a]? = some l) (he : es[a]? = some e)
+    (hs : l.set ≠ []) :
+    (stepLazy k (.write a) ls).1 = .err ∧ (stepEager k (.write a) es).1 = .err := by
+  have : l.set.isEmpty = false := by cases hx : l.set with | nil => exact absurd hx hs | cons _ _ => rfl
+  simp [stepLazy, stepEager, hl, he, hmw, hew, this]
+
 /-- **C05.lazy_eager_equiv** — the property itself: tables read lazily and eagerly from the same files are
-observationally equivalent under every operation sequence -/
+observationally equivalent under every operation sequence: (1) at every non-write step for every configuration; (2) including
+success-vs-failure of every write when the buffer type writes both kinds of table; (3) including the written BYTES when moreover
+the files' text is canonical -/
 theorem lazy_eager_equiv (k : Cfg) (hn : 0 < k.nF) (hfc : k.fixedConcat = true) (hfs : k.fixedSetattr = true)
     (bufs : List (List FRow)) (ops : List Op) (hok : RunOK k ops (bufs.map Lazy.ofFile)) :
     maskWrites ops (runLazy k ops (bufs.map Lazy.ofFile)) = maskWrites ops (runEager k ops (bufs.map (Eager.ofFile k.nF))) ∧
+    (k.modWrite = true → k.eagerWrite = true →
+      maskPayload (runLazy k ops (bufs.map Lazy.ofFile)) = maskPayload (runEager k ops (bufs.map (Eager.ofFile k.nF)))) ∧
     ((∀ b ∈ bufs, Canon k.nF k.join b) → k.modWrite = true → k.eagerWrite = true →
       runLazy k ops (bufs.map Lazy.ofFile) = runEager k ops (bufs.map (Eager.ofFile k.nF))) := by
-  refine ⟨programs_values k hn hfc hfs ops _ _ (RAll_ofFile k.nF bufs) hok, ?_⟩
+  refine ⟨programs_nonwrite k hn hfc hfs ops _ _ (RAll_ofFile k.nF bufs) hok,
+    fun hmw hew => programs_values k hn hfc hfs hmw hew ops _ _ (RAll_ofFile k.nF bufs) hok, ?_⟩
   intro hc hmw hew
   apply programs k hn hfc hfs hmw hew ops _ _ (RAll_ofFile k.nF bufs) _ hok
   intro l hl
   simp only [List.mem_map] at hl
   obtain ⟨b, hb, rfl⟩ := hl
   exact hc b hb
+
+/-! ### the domain check the driver evaluates is sound -/
+
+theorem opOKb_sound (op : Op) (ls : List Lazy) (h : opOKb op ls = true) : OpOK op ls := by
+  cases op with
+  | replace a d kw =>
+    intro l hl p hp
+    simp only [opOKb, hl, List.all_eq_true, beq_iff_eq] at h
+    exact h p hp
+  | setattr a f c =>
+    intro l hl
+    simp only [opOKb, hl, beq_iff_eq] at h
+    exact h
+  | _ => trivial
+
+/-- **C05.runOKb_sound** — `runOKb = true` (reported by the driver for every request) establishes the hypothesis `RunOK` of the
+program theorems -/
+theorem runOKb_sound (k : Cfg) (ops : List Op) : ∀ (ls : List Lazy), runOKb k ops ls = true → RunOK k ops ls := by
+  induction ops with
+  | nil => intro _ _; trivial
+  | cons op ops ih =>
+    intro ls h
+    simp only [runOKb, Bool.and_eq_true] at h
+    exact ⟨opOKb_sound op ls h.1, ih _ h.2⟩
 
 /-! ### non-vacuity -/
 
@@ -1004,9 +1108,10 @@ example : Canon 2 demoJoin [demoRow 51 52, demoRow 53 54] := by
 
 example : RunOK demoCfg [.get 0 1, .replace 1 1 [(0, [[55], [56]])], .cat 0 1]
     [Lazy.ofFile [demoRow 49 50], Lazy.ofFile [demoRow 51 52, demoRow 53 54]] := by
-  refine ⟨by show 1 < 2; omega, ?_, trivial, trivial⟩
+  refine ⟨trivial, ?_, trivial, trivial⟩
   intro l hl p hp
-  simp [stepLazy, Lazy.ofFile, Lazy.get, lookup, insert, erase] at hl
+  have h12 : 1 < demoCfg.nF := by decide
+  simp [stepLazy, Lazy.ofFile, Lazy.get, lookup, insert, erase, h12] at hl
   subst hl
   simp at hp
   subst hp
